@@ -472,4 +472,393 @@ theorem deInt_spec (bs : Bytes) : deInt bs = (match specReadInt bs with | none =
     rfl
   | panic q => rw [hx] at h; exact absurd h (by simp)
 
+
+/-! ### `leb128.rs::decode_int` (i128): accepts exactly the strings whose value is in range -/
+
+/-- the state update of one group -/
+def step128 (result shift : Nat) (hz ho : Bool) (low : Nat) : Nat × Bool × Bool :=
+  if shift < 128 then
+    let res := result ||| ((low <<< shift) % 2 ^ 128)
+    if shift > 121 then
+      let beyond := low >>> (128 - shift)
+      let width := shift + 7 - 128
+      (res, hz && decide (beyond = 0), ho && decide (beyond = (1 <<< width) - 1))
+    else (res, hz, ho)
+  else (result, hz && decide (low = 0), ho && decide (low = 0x7f))
+
+theorem decodeInt128Loop_cons (result shift : Nat) (hz ho : Bool) (b : UInt8) (r : Bytes) :
+    decodeInt128Loop result shift hz ho (b :: r) =
+      (let s := step128 result shift hz ho (b.toNat &&& 0x7f)
+       let shift' := satAdd7 shift
+       if b.toNat &&& 0x80 = 0 then
+         let negative := b.toNat &&& 0x40 ≠ 0
+         if shift' < 128 then
+           let res := if negative then s.1 ||| (((2 ^ 128 - 1) <<< shift') % 2 ^ 128) else s.1
+           .ok (toI128 res, r)
+         else
+           let signSet := s.1 >>> 127 = 1
+           let fitsB : Bool := if negative then s.2.2 && decide signSet else s.2.1 && !decide signSet
+           if fitsB then .ok (toI128 s.1, r) else .err .overflow
+       else decodeInt128Loop s.1 shift' s.2.1 s.2.2 r) := by
+  rw [decodeInt128Loop]
+  rfl
+
+/-- invariant of `decode_int` after `k` groups whose unsigned value is `U` -/
+structure Inv128 (result shift : Nat) (hz ho : Bool) (U k : Nat) : Prop where
+  sh : ShiftInv shift k
+  lt : U < 2 ^ (7 * k)
+  res : result = U % 2 ^ 128
+  hz : hz = decide (U < 2 ^ 128)
+  ho : ho = decide (7 * k ≤ 128 ∨ U / 2 ^ 128 + 1 = 2 ^ (7 * k - 128))
+
+theorem shl126 : ∀ low, low < 128 → (low <<< 126) % 2 ^ 128 = (low % 4) <<< 126 := by decide +kernel
+
+set_option maxRecDepth 8000 in
+theorem step128_inv (result shift : Nat) (hz ho : Bool) (U k low : Nat) (hl : low < 128)
+    (inv : Inv128 result shift hz ho U k) :
+    Inv128 (step128 result shift hz ho low).1 (satAdd7 shift) (step128 result shift hz ho low).2.1
+      (step128 result shift hz ho low).2.2 (U + low * 2 ^ (7 * k)) (k + 1) := by
+  obtain ⟨hsh, hlt, hres, hhz, hho⟩ := inv
+  have hpk : 2 ^ (7 * (k + 1)) = 128 * 2 ^ (7 * k) := by rw [Nat.mul_add, Nat.pow_add]; simp [Nat.mul_comm]
+  have hlt' : U + low * 2 ^ (7 * k) < 2 ^ (7 * (k + 1)) := by
+    rw [hpk]
+    have : low * 2 ^ (7 * k) ≤ 127 * 2 ^ (7 * k) := Nat.mul_le_mul_right _ (by omega)
+    omega
+  have hPpos : 0 < 2 ^ 128 := Nat.two_pow_pos 128
+  by_cases h128 : shift < 128
+  · have hk : shift = 7 * k := by unfold ShiftInv at hsh; omega
+    subst hk
+    by_cases h121 : 7 * k > 121
+    · -- the group that crosses bit 128
+      have hk18 : k = 18 := by omega
+      subst hk18
+      have e126 : 7 * 18 = 126 := rfl
+      rw [e126] at hlt hlt' hho h128 h121 ⊢
+      have hstep : step128 result 126 hz ho low =
+          (result ||| ((low <<< 126) % 2 ^ 128), hz && decide (low >>> 2 = 0), ho && decide (low >>> 2 = 31)) := rfl
+      rw [hstep]
+      have h4 : (2 : Nat) ^ 128 = 4 * 2 ^ 126 := by rw [show 128 = 2 + 126 from rfl, Nat.pow_add]
+      have hshr : low >>> 2 = low / 4 := by rw [Nat.shiftRight_eq_div_pow]
+      have hl4 : low = low % 4 + 4 * (low / 4) := by omega
+      have hor : result ||| ((low <<< 126) % 2 ^ 128) = U + (low % 4) * 2 ^ 126 := by
+        have hU : U % 2 ^ 128 = U := Nat.mod_eq_of_lt (Nat.lt_of_lt_of_le hlt (Nat.pow_le_pow_right (by omega) (by omega)))
+        rw [hres, hU, shl126 low hl, or_shl _ _ _ hlt]
+      have hdecomp : low * 2 ^ 126 = (low % 4) * 2 ^ 126 + (low / 4) * 2 ^ 128 :=
+        calc low * 2 ^ 126 = (low % 4 + 4 * (low / 4)) * 2 ^ 126 := by rw [← hl4]
+          _ = (low % 4) * 2 ^ 126 + 4 * (low / 4) * 2 ^ 126 := Nat.add_mul _ _ _
+          _ = (low % 4) * 2 ^ 126 + (low / 4) * 2 ^ 128 := by rw [h4, Nat.mul_comm 4 (low / 4), Nat.mul_assoc]
+      have hm3 : (low % 4) * 2 ^ 126 ≤ 3 * 2 ^ 126 := Nat.mul_le_mul_right _ (by omega)
+      have hUP : U < 2 ^ 128 := Nat.lt_of_lt_of_le hlt (Nat.pow_le_pow_right (by omega) (by omega))
+      have e5 : 2 ^ (7 * (18 + 1) - 128) = 32 := rfl
+      -- from here on the two powers are opaque: P = 4 Q
+      generalize hQ : (2 : Nat) ^ 126 = Q at *
+      generalize hP : (2 : Nat) ^ 128 = P at *
+      generalize hM : (low % 4) * Q = M at *
+      have hsum : U + M < P := by omega
+      have hdiv : (U + low * Q) / P = low / 4 := by
+        rw [hdecomp, ← Nat.add_assoc, Nat.add_mul_div_right _ _ hPpos, Nat.div_eq_of_lt hsum]
+        omega
+      have hmod : (U + low * Q) % P = U + M := by
+        rw [hdecomp, ← Nat.add_assoc, Nat.add_mul_mod_self_right, Nat.mod_eq_of_lt hsum]
+      refine ⟨shiftInv_step (Or.inl rfl), hlt', ?_, ?_, ?_⟩
+      · show result ||| ((low <<< 126) % P) = (U + low * Q) % 2 ^ 128
+        rw [hP, hor, hmod]
+      · show (hz && decide (low >>> 2 = 0)) = decide (U + low * Q < 2 ^ 128)
+        rw [hP]
+        have h1 : hz = true := by rw [hhz]; simp only [decide_eq_true_eq]; exact hUP
+        rw [h1, Bool.true_and, hshr, decide_eq_decide]
+        constructor
+        · intro h0
+          rw [hdecomp, h0]
+          omega
+        · intro h0
+          rcases Nat.eq_zero_or_pos (low / 4) with h | h
+          · exact h
+          · exfalso
+            have : P ≤ (low / 4) * P := Nat.le_mul_of_pos_left _ h
+            rw [hdecomp] at h0
+            omega
+      · show (ho && decide (low >>> 2 = 31)) = decide (7 * (18 + 1) ≤ 128 ∨ (U + low * Q) / 2 ^ 128 + 1 = 2 ^ (7 * (18 + 1) - 128))
+        rw [hP, e5]
+        have h1 : ho = true := by rw [hho]; simp only [decide_eq_true_eq]; omega
+        rw [h1, Bool.true_and, hshr, hdiv, decide_eq_decide]
+        omega
+    · -- still inside the low 128 bits
+      have hstep : step128 result (7 * k) hz ho low = (result ||| ((low <<< (7 * k)) % 2 ^ 128), hz, ho) := by
+        unfold step128; rw [if_pos h128, if_neg h121]
+      rw [hstep]
+      have hp119 : 2 ^ (7 * k) ≤ 2 ^ 119 := Nat.pow_le_pow_right (by omega) (by omega)
+      have hU : U % 2 ^ 128 = U := Nat.mod_eq_of_lt (by omega)
+      have hfit : low * 2 ^ (7 * k) < 2 ^ 128 := by
+        have : low * 2 ^ (7 * k) ≤ 127 * 2 ^ 119 := Nat.mul_le_mul (by omega) hp119
+        omega
+      have hp126 : 2 ^ (7 * (k + 1)) ≤ 2 ^ 126 := Nat.pow_le_pow_right (by omega) (by omega)
+      refine ⟨shiftInv_step (Or.inl rfl), hlt', ?_, ?_, ?_⟩
+      · show result ||| ((low <<< (7 * k)) % 2 ^ 128) = (U + low * 2 ^ (7 * k)) % 2 ^ 128
+        have hm : (U + low * 2 ^ (7 * k)) % 2 ^ 128 = U + low * 2 ^ (7 * k) := Nat.mod_eq_of_lt (by omega)
+        rw [hm, hres, hU, Nat.shiftLeft_eq, Nat.mod_eq_of_lt hfit, ← Nat.shiftLeft_eq, or_shl _ _ _ hlt, Nat.shiftLeft_eq]
+      · show hz = decide (U + low * 2 ^ (7 * k) < 2 ^ 128)
+        rw [hhz, decide_eq_decide]
+        omega
+      · show ho = decide (7 * (k + 1) ≤ 128 ∨ (U + low * 2 ^ (7 * k)) / 2 ^ 128 + 1 = 2 ^ (7 * (k + 1) - 128))
+        rw [hho, decide_eq_decide]
+        omega
+  · -- beyond bit 128: the result is complete, only the overflow flags change
+    have hk : 128 ≤ 7 * k := by unfold ShiftInv at hsh; omega
+    have hk' : 128 < 7 * k := by omega
+    have hstep : step128 result shift hz ho low = (result, hz && decide (low = 0), ho && decide (low = 0x7f)) := by
+      unfold step128; rw [if_neg h128]
+    rw [hstep]
+    have hE : 2 ^ (7 * k) = 2 ^ (7 * k - 128) * 2 ^ 128 := by rw [← Nat.pow_add]; congr 1; omega
+    have hE1 : 2 ^ (7 * (k + 1) - 128) = 128 * 2 ^ (7 * k - 128) := by
+      rw [show 7 * (k + 1) - 128 = 7 + (7 * k - 128) by omega, Nat.pow_add]
+    generalize hEdef : 2 ^ (7 * k - 128) = E at *
+    have hEpos : 1 ≤ E := by rw [← hEdef]; exact Nat.two_pow_pos _
+    have hmul : low * 2 ^ (7 * k) = (low * E) * 2 ^ 128 := by rw [hE, Nat.mul_assoc]
+    have hdiv : (U + low * 2 ^ (7 * k)) / 2 ^ 128 = U / 2 ^ 128 + low * E := by
+      rw [hmul, Nat.add_mul_div_right _ _ hPpos]
+    have hmod : (U + low * 2 ^ (7 * k)) % 2 ^ 128 = U % 2 ^ 128 := by
+      rw [hmul, Nat.add_mul_mod_self_right]
+    have hH : U / 2 ^ 128 < E := by
+      rw [Nat.div_lt_iff_lt_mul hPpos, ← hE]; exact hlt
+    refine ⟨shiftInv_step hsh, hlt', ?_, ?_, ?_⟩
+    · show result = (U + low * 2 ^ (7 * k)) % 2 ^ 128
+      rw [hres, hmod]
+    · show (hz && decide (low = 0)) = decide (U + low * 2 ^ (7 * k) < 2 ^ 128)
+      rw [hhz]
+      rcases Nat.eq_zero_or_pos low with h0 | h0
+      · subst h0; simp
+      · have hge : 2 ^ 128 ≤ low * 2 ^ (7 * k) := by
+          rw [hmul]
+          exact Nat.le_mul_of_pos_left _ (Nat.mul_pos h0 hEpos)
+        have h1 : decide (low = 0) = false := by rw [decide_eq_false_iff_not]; omega
+        have h2 : decide (U + low * 2 ^ (7 * k) < 2 ^ 128) = false := by rw [decide_eq_false_iff_not]; omega
+        rw [h1, h2, Bool.and_false]
+    · show (ho && decide (low = 0x7f)) =
+        decide (7 * (k + 1) ≤ 128 ∨ (U + low * 2 ^ (7 * k)) / 2 ^ 128 + 1 = 2 ^ (7 * (k + 1) - 128))
+      rw [hho, hdiv, hE1]
+      generalize U / 2 ^ 128 = H at *
+      by_cases h127 : low = 127
+      · subst h127
+        have : decide ((127 : Nat) = 0x7f) = true := by decide
+        rw [this, Bool.and_true, decide_eq_decide]
+        omega
+      · have hle : low * E ≤ 126 * E := Nat.mul_le_mul_right _ (by omega)
+        have h3 : decide (low = 0x7f) = false := by rw [decide_eq_false_iff_not]; exact h127
+        have h4 : decide (7 * (k + 1) ≤ 128 ∨ H + low * E + 1 = 128 * E) = false := by
+          rw [decide_eq_false_iff_not]; omega
+        rw [h3, h4, Bool.and_false]
+
+
+theorem allOnes128_shl : ∀ s, s ≤ 128 → ((2 ^ 128 - 1) <<< s) % 2 ^ 128 = (2 ^ (128 - s) - 1) <<< s := by decide +kernel
+theorem allOnes128_val : ∀ s, s ≤ 128 → (2 ^ (128 - s) - 1) * 2 ^ s = 2 ^ 128 - 2 ^ s := by decide +kernel
+
+theorem toI128_small (x : Nat) (h : x < 2 ^ 127) : toI128 x = (x : Int) := by
+  unfold toI128; rw [if_pos h]
+theorem toI128_big (x : Nat) (h : 2 ^ 127 ≤ x) : toI128 x = (x : Int) - (2 : Int) ^ 128 := by
+  unfold toI128; rw [if_neg (by omega)]
+
+theorem cast_mul_pow128 (a : Nat) : ((a * 2 ^ 128 : Nat) : Int) = (a : Int) * (2 : Int) ^ 128 := by
+  rw [Int.natCast_mul, Int.natCast_pow]; rfl
+
+set_option maxRecDepth 8000 in
+/-- what the final byte does with the accumulated state: accept exactly the values of the `i128` range -/
+theorem final128 (R s' : Nat) (hz' ho' : Bool) (U' k' : Nat) (r : Bytes) (inv : Inv128 R s' hz' ho' U' k')
+    (neg : Prop) [Decidable neg] :
+    (if s' < 128 then
+        (Outcome.ok (toI128 (if neg then R ||| (((2 ^ 128 - 1) <<< s') % 2 ^ 128) else R), r) : Outcome (Int × Bytes))
+      else if (if neg then ho' && decide (R >>> 127 = 1) else hz' && !decide (R >>> 127 = 1)) = true
+        then .ok (toI128 R, r) else .err .overflow) =
+      (if -(2 : Int) ^ 127 ≤ (U' : Int) - (if neg then (2 : Int) ^ (7 * k') else 0) ∧
+          (U' : Int) - (if neg then (2 : Int) ^ (7 * k') else 0) < (2 : Int) ^ 127
+        then .ok ((U' : Int) - (if neg then (2 : Int) ^ (7 * k') else 0), r) else .err .overflow) := by
+  obtain ⟨hsh, hlt, hres, hhz, hho⟩ := inv
+  have hc : ((2 ^ (7 * k') : Nat) : Int) = (2 : Int) ^ (7 * k') := by simp
+  by_cases h128 : s' < 128
+  · have hk : s' = 7 * k' := by unfold ShiftInv at hsh; omega
+    subst hk
+    rw [if_pos h128]
+    have hp : 2 ^ (7 * k') ≤ 2 ^ 126 := Nat.pow_le_pow_right (by omega) (by omega)
+    have hR : R = U' := by rw [hres]; exact Nat.mod_eq_of_lt (by omega)
+    subst hR
+    by_cases hn : neg
+    · simp only [hn, if_true]
+      rw [allOnes128_shl _ (by omega), or_shl _ _ _ hlt, allOnes128_val _ (by omega)]
+      have hp128 : 2 ^ (7 * k') ≤ 2 ^ 128 := Nat.pow_le_pow_right (by omega) (by omega)
+      rw [toI128_big _ (by omega), ← hc]
+      generalize 2 ^ (7 * k') = T at *
+      have e : ((R + (2 ^ 128 - T) : Nat) : Int) - (2 : Int) ^ 128 = (R : Int) - (T : Int) := by omega
+      rw [e, if_pos (by omega)]
+    · simp only [hn, if_false]
+      rw [toI128_small _ (by omega)]
+      rw [if_pos (by omega)]
+      simp
+  · have hk : 128 ≤ 7 * k' := by unfold ShiftInv at hsh; omega
+    have hk' : 128 < 7 * k' := by omega
+    rw [if_neg h128]
+    have hPpos : 0 < 2 ^ 128 := Nat.two_pow_pos 128
+    have hE : 2 ^ (7 * k') = 2 ^ (7 * k' - 128) * 2 ^ 128 := by rw [← Nat.pow_add]; congr 1; omega
+    have hdm : U' = (U' / 2 ^ 128) * 2 ^ 128 + U' % 2 ^ 128 := by
+      rw [Nat.mul_comm]; exact (Nat.div_add_mod U' (2 ^ 128)).symm
+    have hRlt : U' % 2 ^ 128 < 2 ^ 128 := Nat.mod_lt _ hPpos
+    have hH : U' / 2 ^ 128 < 2 ^ (7 * k' - 128) := by
+      rw [Nat.div_lt_iff_lt_mul hPpos, ← hE]; exact hlt
+    have hsign : (R >>> 127 = 1) ↔ 2 ^ 127 ≤ R := by
+      rw [Nat.shiftRight_eq_div_pow, hres]
+      constructor
+      · intro h
+        have := Nat.div_add_mod (U' % 2 ^ 128) (2 ^ 127)
+        rw [h] at this
+        omega
+      · intro h
+        have h2 : (U' % 2 ^ 128) / 2 ^ 127 < 2 := by
+          rw [Nat.div_lt_iff_lt_mul (Nat.two_pow_pos 127)]; omega
+        have h1 : 1 ≤ (U' % 2 ^ 128) / 2 ^ 127 := by
+          rw [Nat.le_div_iff_mul_le (Nat.two_pow_pos 127)]; omega
+        omega
+    have hhz' : hz' = decide (U' / 2 ^ 128 = 0) := by
+      rw [hhz, decide_eq_decide, Nat.div_eq_zero_iff_lt hPpos]
+    have hho' : ho' = decide (U' / 2 ^ 128 + 1 = 2 ^ (7 * k' - 128)) := by
+      rw [hho, decide_eq_decide]
+      constructor
+      · rintro (h | h); omega; exact h
+      · intro h; exact Or.inr h
+    rw [← hc, hE]
+    rw [hres] at hsign ⊢
+    generalize U' / 2 ^ 128 = H at *
+    generalize U' % 2 ^ 128 = Q at *
+    generalize 2 ^ (7 * k' - 128) = E at *
+    subst hdm
+    by_cases hn : neg
+    · simp only [hn, if_true]
+      rw [hho']
+      by_cases hfit : H + 1 = E ∧ 2 ^ 127 ≤ Q
+      · have : (decide (H + 1 = E) && decide (Q >>> 127 = 1)) = true := by
+          simp only [Bool.and_eq_true, decide_eq_true_eq]; exact ⟨hfit.1, hsign.mpr hfit.2⟩
+        rw [this, if_pos rfl, toI128_big _ hfit.2]
+        have hE' : E = H + 1 := hfit.1.symm
+        subst hE'
+        rw [Int.natCast_add, cast_mul_pow128, cast_mul_pow128]
+        rw [if_pos (by omega)]
+        congr 2
+        omega
+      · have : (decide (H + 1 = E) && decide (Q >>> 127 = 1)) = false := by
+          rw [Bool.and_eq_false_iff]
+          by_cases h1 : H + 1 = E
+          · right; rw [decide_eq_false_iff_not, hsign]; exact fun h => hfit ⟨h1, h⟩
+          · left; rw [decide_eq_false_iff_not]; exact h1
+        rw [this, if_neg Bool.false_ne_true, if_neg]
+        intro hr
+        apply hfit
+        rw [Int.natCast_add, cast_mul_pow128, cast_mul_pow128] at hr
+        have hEH : H + 1 ≤ E := hH
+        by_cases h1 : H + 1 = E
+        · refine ⟨h1, ?_⟩
+          subst h1
+          omega
+        · exfalso
+          have h2 : H + 2 ≤ E := by omega
+          omega
+    · simp only [hn, if_false]
+      rw [hhz']
+      by_cases hfit : H = 0 ∧ Q < 2 ^ 127
+      · have : (decide (H = 0) && !decide (Q >>> 127 = 1)) = true := by
+          simp only [Bool.and_eq_true, decide_eq_true_eq, Bool.not_eq_true', decide_eq_false_iff_not]
+          exact ⟨hfit.1, fun h => by have := hsign.mp h; omega⟩
+        rw [this, if_pos rfl, toI128_small _ hfit.2]
+        obtain ⟨h0, _⟩ := hfit
+        subst h0
+        rw [if_pos (by omega)]
+        simp
+      · have : (decide (H = 0) && !decide (Q >>> 127 = 1)) = false := by
+          rw [Bool.and_eq_false_iff]
+          by_cases h1 : H = 0
+          · right
+            simp only [Bool.not_eq_false', decide_eq_true_eq]
+            exact hsign.mpr (by omega)
+          · left; rw [decide_eq_false_iff_not]; exact h1
+        rw [this, if_neg Bool.false_ne_true, if_neg]
+        intro hr
+        apply hfit
+        by_cases h1 : H = 0
+        · subst h1; refine ⟨rfl, ?_⟩; omega
+        · exfalso
+          have : 2 ^ 128 ≤ H * 2 ^ 128 := Nat.le_mul_of_pos_left _ (by omega)
+          omega
+
+
+theorem decodeInt128Loop_spec : ∀ (bs : Bytes) (result shift : Nat) (hz ho : Bool) (U k : Nat),
+    Inv128 result shift hz ho U k →
+    decodeInt128Loop result shift hz ho bs =
+      (match splitLeb bs with
+       | none => .err .eof
+       | some (p, r) =>
+         if -(2 : Int) ^ 127 ≤ sAcc U (7 * k) p ∧ sAcc U (7 * k) p < (2 : Int) ^ 127
+         then .ok (sAcc U (7 * k) p, r) else .err .overflow) := by
+  intro bs
+  induction bs with
+  | nil => intro _ _ _ _ _ _ _; rfl
+  | cons b t ih =>
+    intro result shift hz ho U k inv
+    have hlt : b.toNat % 128 < 128 := Nat.mod_lt _ (by omega)
+    have h80 : (b.toNat &&& 0x80 = 0) ↔ b.toNat < 128 := and80 b
+    have h40 : (b.toNat &&& 0x40 ≠ 0) ↔ 64 ≤ b.toNat % 128 := and40 b
+    have inv' := step128_inv result shift hz ho U k (b.toNat % 128) hlt inv
+    rw [decodeInt128Loop_cons]
+    simp only [and7f]
+    have e7 : 7 * (k + 1) = 7 * k + 7 := by omega
+    by_cases hb : b.toNat < 128
+    · rw [if_pos (h80.2 hb), splitLeb_cons_lt _ _ hb]
+      have hfin := final128 _ _ _ _ _ _ t inv' (b.toNat &&& 0x40 ≠ 0)
+      simp only [] at hfin ⊢
+      rw [hfin]
+      have hv : ((U + b.toNat % 128 * 2 ^ (7 * k) : Nat) : Int) -
+            (if b.toNat &&& 0x40 ≠ 0 then (2 : Int) ^ (7 * (k + 1)) else 0) = sAcc U (7 * k) [b] := by
+        rw [sAcc_single, e7, Int.natCast_add, Int.natCast_mul, Int.natCast_pow, Int.mul_comm]
+        by_cases h6 : 64 ≤ b.toNat % 128
+        · rw [if_pos (h40.2 h6), if_pos h6]; rfl
+        · rw [if_neg (fun h => h6 (h40.1 h)), if_neg h6]; rfl
+      rw [hv]
+    · rw [if_neg (fun h => hb (h80.1 h)), splitLeb_cons_ge _ _ hb, ih _ _ _ _ _ _ inv']
+      cases hsp : splitLeb t with
+      | none => rfl
+      | some x =>
+        obtain ⟨p, r⟩ := x
+        simp only []
+        rw [e7, sAcc_cons U (7 * k) b p (splitLeb_ne_nil t p r hsp)]
+
+/-- **the i128 decoder accepts exactly the terminated strings whose two's-complement value is in range, and returns
+that value** -/
+theorem decodeInt128_spec (bs : Bytes) :
+    decodeInt128 bs = (match specReadI128 bs with
+      | some x => .ok x
+      | none => match splitLeb bs with | none => .err .eof | some _ => .err .overflow) := by
+  unfold decodeInt128
+  have inv0 : Inv128 0 0 true true 0 0 := ⟨Or.inl rfl, by simp, by simp, by simp, by simp⟩
+  rw [decodeInt128Loop_spec bs 0 0 true true 0 0 inv0]
+  unfold specReadI128 specReadInt
+  cases splitLeb bs with
+  | none => rfl
+  | some x =>
+    obtain ⟨p, r⟩ := x
+    have e : sAcc 0 (7 * 0) p = sval p := by simp [sAcc, sval]
+    simp only [Option.map_some, e]
+    split <;> rfl
+
+
+theorem decodeInt128_exact (bs : Bytes) :
+    decodeInt128 bs = (match splitLeb bs with
+      | none => .err .eof
+      | some (p, r) =>
+        if -(2 : Int) ^ 127 ≤ sval p ∧ sval p < (2 : Int) ^ 127 then .ok (sval p, r) else .err .overflow) := by
+  unfold decodeInt128
+  have inv0 : Inv128 0 0 true true 0 0 := ⟨Or.inl rfl, by simp, by simp, by simp, by simp⟩
+  rw [decodeInt128Loop_spec bs 0 0 true true 0 0 inv0]
+  cases splitLeb bs with
+  | none => rfl
+  | some x =>
+    obtain ⟨p, r⟩ := x
+    have e : sAcc 0 (7 * 0) p = sval p := by simp [sAcc, sval]
+    simp only [e]
+
 end Candid.Leb
